@@ -367,3 +367,87 @@ Example C26_witness_serial_total_hyp :
   sc_total 1%nat progs = 1 /\ quiescent c = true /\ s_disposed (x_s (c_sh c)) = true /\
   plain (c_log c) = [ODisp 1%nat; ODisp 2%nat].
 Proof. vm_compute. repeat split. Qed.
+
+(* ---- Part 4: ONE thread of the transition systems IS the sequential container (Core/DispConcFacts3.v) -----
+   For every history h of one thread there is a schedule length n such that after n steps, and after any
+   number m of further steps, the thread has returned from all calls (quiescent), the log of the transition
+   system is the log of the sequential model (held items + disposed flag) and the shared state is its final
+   state.  So Part 1 (conservation, exactly once, nothing while held, add/assign after dispose) speaks about
+   the same objects as Part 2, and a quiescent state is reachable for every program. *)
+From RxVerif Require Import Core.DispConcFacts3.
+
+Theorem C26_composite_one_thread_refines : forall l0 h, exists n, forall m,
+  let c := cc_run l0 [h] (repeat 0%nat (n + m)%nat) in
+  plain (c_log c) = log c_step (c_init l0) h /\
+  c_sh c = final c_step (c_init l0) h /\
+  quiescent c = true.
+Proof. exact cc_one_thread_refines. Qed.
+Print Assumptions C26_composite_one_thread_refines.
+
+(* the three one-slot classes at once: [slot_seq k] is ser_step / mad_step / sad_step; [slot_f k] is the
+   identity except that the SingleAssignment system names the rejected item (ORej i) where the sequential
+   log has the bare exception (ORaise) *)
+Theorem C26_slot_one_thread_refines : forall k h, exists n, forall m,
+  let c := sc_run k [h] (repeat 0%nat (n + m)%nat) in
+  map (slot_f k) (plain (c_log c)) = log (slot_seq k) s_init h /\
+  x_s (c_sh c) = final (slot_seq k) s_init h /\
+  quiescent c = true.
+Proof. exact sc_one_thread_refines. Qed.
+Print Assumptions C26_slot_one_thread_refines.
+
+Theorem C26_serial_one_thread_refines : forall h, exists n, forall m,
+  let c := sc_run KSerial [h] (repeat 0%nat (n + m)%nat) in
+  plain (c_log c) = log ser_step s_init h /\ x_s (c_sh c) = final ser_step s_init h /\ quiescent c = true.
+Proof. exact serial_one_thread_refines. Qed.
+Print Assumptions C26_serial_one_thread_refines.
+
+Theorem C26_single_one_thread_refines : forall h, exists n, forall m,
+  let c := sc_run KSingle [h] (repeat 0%nat (n + m)%nat) in
+  map unrej (plain (c_log c)) = log sad_step s_init h /\ x_s (c_sh c) = final sad_step s_init h /\
+  quiescent c = true.
+Proof. exact single_one_thread_refines. Qed.
+Print Assumptions C26_single_one_thread_refines.
+
+(* what it buys, stated on the transition systems: one thread, run to completion -- every item received one
+   dispose() per hand-over except for the occurrences still held (removed / replaced / cleared items are
+   disposed by that call, the rest at dispose()); after a dispose() nothing is held *)
+Theorem C26_composite_one_thread_exactly_once : forall l0 h i, exists n, forall m,
+  let c := cc_run l0 [h] (repeat 0%nat (n + m)%nat) in
+  quiescent c = true /\
+  (disposes i (plain (c_log c)) + cnt i (c_items (c_sh c)) = cnt i l0 + c_hadds i h)%nat /\
+  (In CDispose h -> c_items (c_sh c) = [] /\ disposes i (plain (c_log c)) = (cnt i l0 + c_hadds i h)%nat).
+Proof. exact composite_one_thread_exactly_once. Qed.
+Print Assumptions C26_composite_one_thread_exactly_once.
+
+Theorem C26_serial_one_thread_exactly_once : forall h i, exists n, forall m,
+  let c := sc_run KSerial [h] (repeat 0%nat (n + m)%nat) in
+  quiescent c = true /\
+  (disposes i (plain (c_log c)) + ocnt i (s_cur (x_s (c_sh c))) = s_hsets i h)%nat /\
+  (In SDispose h -> s_cur (x_s (c_sh c)) = None /\ disposes i (plain (c_log c)) = s_hsets i h).
+Proof. exact serial_one_thread_exactly_once. Qed.
+Print Assumptions C26_serial_one_thread_exactly_once.
+
+Theorem C26_single_one_thread_exactly_once : forall h i, exists n, forall m,
+  let c := sc_run KSingle [h] (repeat 0%nat (n + m)%nat) in
+  quiescent c = true /\
+  (disposes i (plain (c_log c)) + ocnt i (s_cur (x_s (c_sh c))) + s_rejected i h (outs sad_step s_init h)
+    = s_hsets i h)%nat /\
+  (In SDispose h -> s_cur (x_s (c_sh c)) = None).
+Proof. exact single_one_thread_exactly_once. Qed.
+Print Assumptions C26_single_one_thread_exactly_once.
+
+(* non-vacuity: a composite history with remove, add after dispose and clear; a single-assignment history
+   with a rejected second assignment (ORej 2 in the system log, ORaise in the sequential log) *)
+Example C26_witness_one_thread_composite :
+  let h := [CAdd 3; CRemove 1; CDispose; CAdd 4; CClear]%nat in
+  let c := cc_run [1; 2]%nat [h] (repeat 0%nat 12) in
+  quiescent c = true /\ plain (c_log c) = log c_step (c_init [1; 2]%nat) h /\
+  plain (c_log c) = [ODisp 1; OBool true; ODisp 2; ODisp 3; ODisp 4]%nat /\
+  c_sh c = CState [] true.
+Proof. vm_compute. repeat split. Qed.
+Example C26_witness_one_thread_single :
+  let h := [SSet 1; SSet 2; SDispose; SGet]%nat in
+  let c := sc_run KSingle [h] (repeat 0%nat 6) in
+  quiescent c = true /\ plain (c_log c) = [ORej 2; ODisp 1; OItem None]%nat /\
+  log sad_step s_init h = [ORaise; ODisp 1%nat; OItem None].
+Proof. vm_compute. repeat split. Qed.
